@@ -288,30 +288,59 @@ def intermediate(desc):
     return t0.index(sh[0]), t1.index(sh[0]), sh[0]
 
 
+def _rv_bound(p, rv):
+    wl = p["workload"]
+    if wl["kind"] == "matmuls":
+        return wl["M"] if rv == "m" else wl["KN"]
+    return wl[rv.upper()]
+
+
+def _patch_bounds(p, desc):
+    """Bounds of `desc` re-derived from params (used only while searching for a size that fits; the accepted candidate is
+    re-described by the repo's front end and must give the same description)."""
+    for e in desc["einsums"]:
+        S = e["spec"]
+        S["bounds"] = [(_rv_bound(p, rv) if b != 1 or _rv_in(e, desc, i) else 1) for i, (rv, b) in enumerate(zip(desc["rvs"], S["bounds"]))]
+
+
+def _rv_in(e, desc, i):
+    return any(i in t["rvs"] for t in e["spec"]["tensors"])
+
+
 def gen_family(ctx, drv, n, limit, mix):
     """Up to n accepted (params, desc, size) with |all| ≤ limit; slot i uses mix[i % len(mix)] = (n_einsums, levels, kind).
     A candidate whose reference mapspace is too large gets its largest rank bound reduced until it fits."""
+    import copy as _copy
+
     out = []
     for i in range(n):
         ne, lv, kind = mix[i % len(mix)]
         for _ in range(6):
             p = supported_params(ctx.rng, n_einsums=ne, levels=lv, kind=kind)
-            desc = None
+            try:
+                desc = describe(p)
+            except Unsupported:
+                continue
+            trial = _copy.deepcopy(desc)
+            shrunk = False
+            ok = True
             while True:
-                try:
-                    desc = describe(p)
-                except Unsupported:
-                    desc = None
-                    break
-                size = space_size(drv, desc, 50 * limit)
+                size = space_size(drv, trial, 50 * limit)
                 if size <= limit:
                     break
                 if not shrink_bounds(p, ctx.rng):
-                    desc = None
+                    ok = False
                     break
-            if desc is not None:
-                out.append((p, desc, size))
-                break
+                shrunk = True
+                _patch_bounds(p, trial)
+            if not ok:
+                continue
+            if shrunk:
+                desc = describe(p)   # authoritative: from the repo's front end
+                if [e["spec"]["bounds"] for e in desc["einsums"]] != [e["spec"]["bounds"] for e in trial["einsums"]]:
+                    raise RuntimeError("bounds patched from params differ from the front end's")
+            out.append((p, desc, size))
+            break
     return out
 
 
